@@ -1,13 +1,14 @@
 (* C20 — property theorems about the helper model (Model/Helpers.v) with the
    predicates of Spec/C20.v. Nothing but statements closed by [exact].
 
-   Naming: [x]            the statement as the property intends it;
-           [x_refuted]    the intended statement is false of the faithful
-                          model (= of the code as it is today; the witness is
-                          a corpus case);
-           [x_partial]    the strongest true statement about today's code;
-           [x_fixed]      the intended statement for the model variant with
-                          the one-line fix (knobs at the top of Helpers.v). *)
+   The model mirrors the code after the fix commits 62b8f1e..6fbf01e of /repo
+   (knobs at the top of Helpers.v, pinned by [model_is_todays_code]); the
+   theorems named after a clause of the property state that clause in full.
+   Naming: [x_refuted]          the intended statement is (still) false of
+                                the faithful model; the witness is a corpus case;
+           [x_partial]          the strongest true statement next to it;
+           [x_unfixed_refuted]  the model variant WITHOUT a fix violates the
+                                clause (what a revert of the fix brings back). *)
 From Coq Require Import List NArith ZArith Bool Arith.
 From AMV Require Import Base.ListSet Model.Helpers Spec.C20.
 From AMV Require Proofs.C20Proofs.
@@ -15,38 +16,28 @@ Import ListNotations.
 
 (* the model variant that is compared with the implementation *)
 Theorem model_is_todays_code :
-  s_rem_from = 1 /\ parse_dup_filters = false /\ first_guards_empty = false /\
-  last_idx_absolute = false /\ active_states_filters = false /\
-  time_equal_guards = false /\ add_noargs_uniq = false.
+  s_rem_from = 0 /\ parse_dup_filters = true /\ first_guards_empty = true /\
+  last_idx_absolute = false /\ active_states_filters = true /\
+  time_equal_guards = true /\ add_noargs_uniq = true.
 Proof. exact C20Proofs.model_is_todays_code_lemma. Qed.
 Print Assumptions model_is_todays_code.
 
 (* ================================================================== *)
 (* S.Add / Add1 / SAdd                                                 *)
 
-(* intended: forall s ls, add_ok s ls (s_add s ls) = true *)
-Theorem add_is_union_nodup_refuted :
-  exists s ls, add_ok s ls (s_add s ls) = false.
-Proof. exact C20Proofs.add_full_refuted_lemma. Qed.
-Print Assumptions add_is_union_nodup_refuted.
-
-Theorem add_is_union_nodup_partial :
-  forall s ls, ls <> [] ->
+Theorem add_is_union_nodup :
+  forall s ls,
     add_ok s ls (s_add s ls) = true /\
     NoDup (s_add s ls) /\
     (forall x, In x (s_add s ls) <-> In x s \/ exists l, In l ls /\ In x l) /\
     s_add s ls = uniq (s ++ concat ls).
 Proof. exact C20Proofs.add_is_union_nodup_lemma. Qed.
-Print Assumptions add_is_union_nodup_partial.
+Print Assumptions add_is_union_nodup.
 
-Theorem add_noargs_is_identity : forall s, s_add s [] = s.
-Proof. exact C20Proofs.add_noargs_lemma. Qed.
-Print Assumptions add_noargs_is_identity.
-
-Theorem add_is_union_nodup_fixed :
-  forall s ls, add_ok s ls (s_add_k true s ls) = true.
-Proof. exact C20Proofs.add_fixed_lemma. Qed.
-Print Assumptions add_is_union_nodup_fixed.
+Theorem add_unfixed_refuted :
+  exists s ls, add_ok s ls (s_add_k false s ls) = false.
+Proof. exact C20Proofs.add_unfixed_refuted_lemma. Qed.
+Print Assumptions add_unfixed_refuted.
 
 Theorem add1_is_union_nodup :
   forall s names,
@@ -118,33 +109,24 @@ Print Assumptions set_helpers_total.
 (* ================================================================== *)
 (* S.Delete / Delete1 / SRem                                           *)
 
-(* intended (delete_removes):
-     forall s ls, delete_ok s ls (s_delete s ls) = true
-   s_delete = s_rem_at s_rem_from = s_rem_at 1 today *)
-Theorem delete_removes_refuted :
-  exists s l x, In x l /\ In x (s_rem_at 1 s [l]) /\
-    delete_ok s [l] (s_rem_at 1 s [l]) = false.
-Proof. exact C20Proofs.delete_removes_refuted_lemma. Qed.
-Print Assumptions delete_removes_refuted.
+(* "S.Delete removes": on duplicate-free receivers *)
+Theorem delete_removes :
+  forall s ls, NoDup s ->
+    delete_ok s ls (s_delete s ls) = true /\ delete_ok s ls (s_rem s ls) = true.
+Proof. exact C20Proofs.delete_removes_lemma. Qed.
+Print Assumptions delete_removes.
 
-(* S.Delete(one list) and S.Delete1(names...) return the receiver *)
-Theorem delete_one_list_is_identity : forall s l, s_rem_at 1 s [l] = s.
-Proof. exact C20Proofs.delete_one_list_lemma. Qed.
-Print Assumptions delete_one_list_is_identity.
+Theorem delete1_removes :
+  forall s names, NoDup s -> delete_ok s [names] (s_delete1 s names) = true.
+Proof. exact C20Proofs.delete1_removes_lemma. Qed.
+Print Assumptions delete1_removes.
 
-Theorem delete1_refuted :
-  (forall s names, s_rem_at 1 s [names] = s) /\
-  exists s names, delete_ok s [names] (s_rem_at 1 s [names]) = false.
-Proof. exact C20Proofs.delete1_refuted_lemma. Qed.
-Print Assumptions delete1_refuted.
-
-(* with several lists the first one is skipped, the others are removed *)
-Theorem delete_removes_partial :
-  forall s l rest, NoDup s ->
-    s_rem_at 1 s (l :: rest) = s_rem_at 0 s rest /\
-    delete_ok s rest (s_rem_at 1 s (l :: rest)) = true.
-Proof. exact C20Proofs.delete_removes_partial_lemma. Qed.
-Print Assumptions delete_removes_partial.
+(* intended without the NoDup hypothesis: still false, slicesWithout drops
+   the first occurrence only (known finding 2:204) *)
+Theorem delete_removes_fixed_dup_refuted :
+  exists s ls, delete_ok s ls (s_delete s ls) = false.
+Proof. exact C20Proofs.delete_removes_dup_refuted_lemma. Qed.
+Print Assumptions delete_removes_fixed_dup_refuted.
 
 (* never loses or invents a name, whatever the start index *)
 Theorem delete_sound :
@@ -154,45 +136,40 @@ Theorem delete_sound :
 Proof. exact C20Proofs.s_rem_incl_lemma. Qed.
 Print Assumptions delete_sound.
 
-(* the loop starting at 0 removes — on duplicate-free receivers *)
-Theorem delete_removes_fixed :
-  forall s ls, NoDup s -> delete_ok s ls (s_rem_at 0 s ls) = true.
-Proof. exact C20Proofs.delete_removes_from0_lemma. Qed.
-Print Assumptions delete_removes_fixed.
-
-(* ... and only there: slicesWithout drops the first occurrence only *)
-Theorem delete_removes_fixed_dup_refuted :
-  exists s ls, delete_ok s ls (s_rem_at 0 s ls) = false.
-Proof. exact C20Proofs.delete_removes_from0_dup_refuted_lemma. Qed.
-Print Assumptions delete_removes_fixed_dup_refuted.
+(* the loop starting at 1 (before fix 62b8f1e) skipped the only list *)
+Theorem delete_unfixed_refuted :
+  (forall s l, s_rem_at 1 s [l] = s) /\
+  exists s l, delete_ok s [l] (s_rem_at 1 s [l]) = false.
+Proof. exact C20Proofs.delete_unfixed_refuted_lemma. Qed.
+Print Assumptions delete_unfixed_refuted.
 
 (* ================================================================== *)
 (* ParseStates / mustParseStates                                       *)
 
-(* intended: forall n states, parse_ok n states (snd (parse_states n states)) = true *)
-Theorem parse_states_refuted :
-  exists n states x, known n x = false /\ In x (snd (parse_states n states)) /\
-    parse_ok n states (snd (parse_states n states)) = false.
-Proof. exact C20Proofs.parse_states_refuted_lemma. Qed.
-Print Assumptions parse_states_refuted.
+(* "ParseStates drops unknown names and duplicates" *)
+Theorem parse_states :
+  forall n states, parse_ok n states (snd (Helpers.parse_states n states)) = true.
+Proof. exact C20Proofs.parse_states_lemma. Qed.
+Print Assumptions parse_states.
 
-Theorem parse_states_partial :
+Theorem parse_states_without_dup :
   forall n states, has_known_dup n [] states = false ->
-    parse_states n states = (false, filter (known n) states) /\
-    parse_ok n states (snd (parse_states n states)) = true.
+    Helpers.parse_states n states = (false, filter (known n) states) /\
+    parse_ok n states (snd (Helpers.parse_states n states)) = true.
 Proof. exact C20Proofs.parse_states_partial_lemma. Qed.
-Print Assumptions parse_states_partial.
+Print Assumptions parse_states_without_dup.
 
-Theorem parse_states_with_dup_is_uniq :
+Theorem parse_states_with_dup :
   forall n states, has_known_dup n [] states = true ->
-    parse_states n states = (true, uniq states).
+    Helpers.parse_states n states = (true, uniq (filter (known n) states)).
 Proof. exact C20Proofs.parse_states_dup_lemma. Qed.
-Print Assumptions parse_states_with_dup_is_uniq.
+Print Assumptions parse_states_with_dup.
 
-Theorem parse_states_fixed :
-  forall n states, parse_ok n states (snd (parse_states_k true n states)) = true.
-Proof. exact C20Proofs.parse_states_fixed_lemma. Qed.
-Print Assumptions parse_states_fixed.
+Theorem parse_states_unfixed_refuted :
+  exists n states x, known n x = false /\ In x (snd (parse_states_k false n states)) /\
+    parse_ok n states (snd (parse_states_k false n states)) = false.
+Proof. exact C20Proofs.parse_states_unfixed_refuted_lemma. Qed.
+Print Assumptions parse_states_unfixed_refuted.
 
 Theorem must_parse_states_spec :
   forall n states r, must_parse_states n states = Some r ->
@@ -203,22 +180,22 @@ Print Assumptions must_parse_states_spec.
 (* ================================================================== *)
 (* IsQueued / IsQueuedAbove / WillBe                                   *)
 
-(* intended: forall n queue q, is_queued n queue q <> None *)
-Theorem is_queued_total_refuted :
-  exists n q, is_queued n [] q = None.
-Proof. exact C20Proofs.is_queued_total_refuted_lemma. Qed.
-Print Assumptions is_queued_total_refuted.
+(* no queue query panics, the empty queue with PositionFirst included *)
+Theorem is_queued_total :
+  forall n queue q, is_queued n queue q <> None.
+Proof. exact C20Proofs.is_queued_total_lemma. Qed.
+Print Assumptions is_queued_total.
 
-Theorem is_queued_total_partial :
-  forall fg la n queue q,
-    (queue <> [] \/ qq_pos q <> 1%N) -> is_queued_k fg la n queue q <> None.
-Proof. exact C20Proofs.is_queued_total_partial_lemma. Qed.
-Print Assumptions is_queued_total_partial.
+Theorem will_be_total :
+  forall n queue states pos,
+    will_be n queue states pos <> None /\ will_be_removed n queue states pos <> None.
+Proof. exact C20Proofs.will_be_total_lemma. Qed.
+Print Assumptions will_be_total.
 
-Theorem is_queued_total_fixed :
-  forall la n queue q, is_queued_k true la n queue q <> None.
-Proof. exact C20Proofs.is_queued_total_fixed_lemma. Qed.
-Print Assumptions is_queued_total_fixed.
+Theorem is_queued_unfixed_refuted :
+  exists la n q, is_queued_k false la n [] q = None.
+Proof. exact C20Proofs.is_queued_unfixed_refuted_lemma. Qed.
+Print Assumptions is_queued_unfixed_refuted.
 
 (* intended: the reported index designates a matching mutation *)
 Theorem is_queued_sound_refuted :
@@ -227,15 +204,23 @@ Theorem is_queued_sound_refuted :
 Proof. exact C20Proofs.is_queued_last_idx_refuted_lemma. Qed.
 Print Assumptions is_queued_sound_refuted.
 
-(* true for every position but PositionLast today (la = false), and for all
-   positions once the index is absolute (la = true) *)
+(* true for every position but PositionLast (known finding 2:242) ... *)
 Theorem is_queued_sound_partial :
+  forall n queue q f i t,
+    qq_pos q <> 2%N ->
+    is_queued n queue q = Some (f, i, t) ->
+    is_queued_sound n queue q (VQ f i t) = true.
+Proof. exact C20Proofs.is_queued_sound_today_lemma. Qed.
+Print Assumptions is_queued_sound_partial.
+
+(* ... and for all positions once the index is absolute (la = true) *)
+Theorem is_queued_sound_with_absolute_index :
   forall fg la n queue q f i t,
     (qq_pos q <> 2%N \/ la = true) ->
     is_queued_k fg la n queue q = Some (f, i, t) ->
     is_queued_sound n queue q (VQ f i t) = true.
 Proof. exact C20Proofs.is_queued_sound_lemma. Qed.
-Print Assumptions is_queued_sound_partial.
+Print Assumptions is_queued_sound_with_absolute_index.
 
 Theorem is_queued_complete_holds :
   forall fg la n queue q f i t,
@@ -321,21 +306,16 @@ Theorem time_active_spec :
 Proof. exact C20Proofs.time_active_spec_lemma. Qed.
 Print Assumptions time_active_spec.
 
-(* intended: forall t idxs, active_ok t idxs (time_active t idxs) = true *)
-Theorem time_active_filter_refuted :
-  exists t idxs, active_ok t (Some idxs) (time_active t (Some idxs)) = false.
-Proof. exact C20Proofs.time_active_filter_refuted_lemma. Qed.
-Print Assumptions time_active_filter_refuted.
+(* Time.ActiveStates(idxs): only the passed indexes are considered *)
+Theorem time_active_filter :
+  forall t idxs, active_ok t idxs (time_active t idxs) = true.
+Proof. exact C20Proofs.time_active_filter_lemma. Qed.
+Print Assumptions time_active_filter.
 
-Theorem time_active_filter_partial :
-  forall t, active_ok t None (time_active t None) = true.
-Proof. exact C20Proofs.time_active_nil_lemma. Qed.
-Print Assumptions time_active_filter_partial.
-
-Theorem time_active_filter_fixed :
-  forall t idxs, active_ok t idxs (time_active_k true t idxs) = true.
-Proof. exact C20Proofs.time_active_filter_fixed_lemma. Qed.
-Print Assumptions time_active_filter_fixed.
+Theorem time_active_unfixed_refuted :
+  exists t idxs, active_ok t (Some idxs) (time_active_k false t (Some idxs)) = false.
+Proof. exact C20Proofs.time_active_unfixed_refuted_lemma. Qed.
+Print Assumptions time_active_unfixed_refuted.
 
 Theorem after_before_dual :
   forall e t t2, time_after e t t2 = time_before e t2 t.
@@ -354,32 +334,19 @@ Theorem time_equal_strict_spec :
 Proof. exact C20Proofs.time_equal_strict_spec_lemma. Qed.
 Print Assumptions time_equal_strict_spec.
 
-(* intended: forall strict t t2, time_equal strict t t2 <> None *)
-Theorem time_equal_total_refuted :
-  exists t t2, time_equal false t t2 = None.
-Proof. exact C20Proofs.time_equal_total_refuted_lemma. Qed.
-Print Assumptions time_equal_total_refuted.
+Theorem time_equal_total :
+  forall strict t t2, time_equal strict t t2 <> None.
+Proof. exact C20Proofs.time_equal_total_lemma. Qed.
+Print Assumptions time_equal_total.
 
-Theorem time_equal_total_partial :
-  forall g strict t t2,
-    (strict = true \/ (length t <= length t2)%nat) -> time_equal_k g strict t t2 <> None.
-Proof. exact C20Proofs.time_equal_total_partial_lemma. Qed.
-Print Assumptions time_equal_total_partial.
-
-Theorem time_equal_total_fixed :
-  forall strict t t2, time_equal_k true strict t t2 <> None.
-Proof. exact C20Proofs.time_equal_total_fixed_lemma. Qed.
-Print Assumptions time_equal_total_fixed.
+Theorem time_equal_unfixed_refuted :
+  exists t t2, time_equal_k false false t t2 = None.
+Proof. exact C20Proofs.time_equal_unfixed_refuted_lemma. Qed.
+Print Assumptions time_equal_unfixed_refuted.
 
 (* every Time / TimeIndex helper returns (no index panic) on arguments inside
-   its domain — except the non-strict Equal with a longer receiver *)
+   its domain *)
 Theorem time_helpers_total :
-  forall op,
-    time_in_domain op = true ->
-    match op with
-    | TEqual false t t2 => (length t <= length t2)%nat
-    | _ => True
-    end ->
-    run_time op <> VPanic.
-Proof. exact C20Proofs.time_helpers_total_lemma. Qed.
+  forall op, time_in_domain op = true -> run_time op <> VPanic.
+Proof. exact C20Proofs.time_ops_total_lemma. Qed.
 Print Assumptions time_helpers_total.
